@@ -3344,6 +3344,12 @@ func MarshalSRBSID(bsid *bgp.TunnelEncapSubTLVSRBSID) (*api.SRBindingSID, error)
 	if bsid.BSID != nil {
 		s.Sid = make([]byte, len(bsid.BSID.Value))
 		copy(s.Sid, bsid.BSID.Value)
+		if len(s.Sid) == 4 {
+			// On the wire the label occupies the upper 20 bits; the API
+			// carries the label value itself (UnmarshalSRBSID hands it to
+			// bgp.NewBSID, which shifts it into place).
+			binary.BigEndian.PutUint32(s.Sid, binary.BigEndian.Uint32(s.Sid)>>12)
+		}
 	}
 	s.SFlag = bsid.Flags&0x80 == 0x80
 	s.IFlag = bsid.Flags&0x40 == 0x40
